@@ -21,6 +21,7 @@ RULE = ("one run (in 'two-groups': two slow groups on one master sharing termina
         "35 % of the runs the same groups and devices are started a second time; "
         "oracles per cycle >= 2; distinct = distinct event-log digests; non-trivial = at "
         "least 4 cycles with at least one linked variable")
+RULE += '; since the 4th session groups are of a user subclass of SyncGroup in 30 % of the cases'
 COMPONENTS = {
     "real": ["ebpfcat.ebpfcat.SyncGroup.start/update_devices", "SyncGroupBase.run/"
              "allocate/map_fmmu", "SterilePacket", "PacketVar/TerminalVar (Python path)",
